@@ -21,7 +21,7 @@ Proof.
   - apply ext_emit.
   - unfold submit. destruct q; eexists [_]; reflexivity.
   - unfold submit. eexists [_]; reflexivity.
-  - unfold timer_add. eexists [_]; reflexivity.
+  - unfold timer_add. eexists [_; _]; reflexivity.
 Qed.
 
 Lemma hcase_ext mo s pre s' : hcase mo s pre s' -> ext s s'.
